@@ -62,6 +62,12 @@ CHECKS = {
         text="Live transcripts of TLS 1.1/1.2/1.3 and DTLS 1.0/1.2 (suite, auth, resumption, ticket-key rotation, PMTU, re-chunking) parked at arbitrary record boundaries; 1-5 edits per run: bit flips, boundary values in 1/2/3-byte fields, handshake/fragment header fields, "
              "record header fields, truncate/extend, consistent grow/shrink of a handshake message (all enclosing length fields adjusted), re-fragmentation, dup/drop/swap, forged/replayed/cross-session records, plaintext edits before sealing (post-decryption parsers). "
              "Oracles: no ASan report or signal, no UBSan report, every API call returns within a 30 s watchdog with a documented status, no allocation above 1 MiB, I/O buffers within SSL_MAX_BUF_SIZE, zero live library blocks after sessions/keys are deleted. Sampled, not exhaustive: mutations of live transcripts, no coverage guidance."),
+    "C20": dict(engine="threads", level="exploration", design="10/C20",
+        technique="deterministic simulation of real threads: one-at-a-time execution under a seeded scheduler with a scheduling point at every seam call, hand-off hidden from ThreadSanitizer; TSan and ASan builds; history-based serializability oracle",
+        text="2-4 real pthreads each running full / id- / ticket- / TLS 1.3 PSK-resumed handshakes with data and closure plus ticket-key rotation against one shared server key set, shared or per-thread client key sets, the global session cache and the PRNG. "
+             "The scheduler (token passing over futexes in an uninstrumented translation unit) picks the next thread at every mutex lock/unlock, allocation, clock and entropy call: random with per-run switch probability and seam subset, or PCT-style priorities. "
+             "Oracles: no ThreadSanitizer report (its happens-before graph holds only the library's own locks), no ASan/UBSan report on the same plans, no deadlock (wait-for check whenever a thread blocks on a modelled mutex), every session completes with exact data, "
+             "each resumption decision is one that some sequential order consistent with the recorded invoke/return sequence numbers allows (ticket-key deletion before / concurrent with / after the resumption)."),
 }
 
 NOT_APPLICABLE = [
